@@ -122,7 +122,11 @@ func renderInit(r repSpec, ctype string) []byte {
 func renderSeg(s segSpec, seq uint32) []byte {
 	switch s.Kind {
 	case "garbage":
-		return []byte("this is not an mp4 file, it only looks like one from far away")
+		// not a usable mp4 file: a box that claims 4096 bytes in a 15-byte file (a text file would be read
+		// as a box of ~2 GB - "this" = 0x74686973 - and mp4ff allocates that much before it fails)
+		return []byte{0, 0, 0x10, 0, 'j', 'u', 'n', 'k', 1, 2, 3, 4, 5, 6, 7}
+	case "tinybox":
+		return []byte{0, 0, 0, 5, 'j', 'u', 'n', 'k', 1, 2, 3, 4, 5, 6, 7} // box size below the header size
 	case "empty":
 		return []byte{}
 	case "styponly":
